@@ -803,6 +803,18 @@ class Phase(Angle):
                 corr = Phase.from_angles(inputs[1], factor=fd, out=corr)
                 remainder = np.subtract(self, corr, out=corr)
 
+            # remainder.cycle is a single double: if it rounded onto 0 or onto the
+            # divisor, the quotient is still off by one.  Settle that with exact
+            # (two-part) comparisons: 0 <= remainder < divisor (mirrored if negative).
+            d = inputs[1]
+            pos = d > 0
+            fdx = np.where(pos, remainder >= d, remainder <= d).astype(float)
+            fdx -= np.where(pos, remainder < 0, remainder > 0)
+            if np.count_nonzero(fdx):
+                fd += fdx
+                corr = Phase.from_angles(inputs[1], factor=fd, out=corr)
+                remainder = np.subtract(self, corr, out=corr)
+
             if function is np.floor_divide:
                 return fd
             elif function is np.remainder:
